@@ -6,6 +6,8 @@
 set -u
 S=/tmp/rlv-selftest.$$
 rc=0
+# the corpus only looks at which obligation fails; counterexample replay is exercised separately below
+export VERIF_NOREPLAY=1
 only=${1:-}
 for p in /verif/selftest/mustfail/*.patch /verif/selftest/benign/*.patch; do
   [ -f "$p" ] || continue
@@ -23,6 +25,16 @@ for p in /verif/selftest/mustfail/*.patch /verif/selftest/benign/*.patch; do
     if echo "$out" | grep "^VIOLATION" | grep -q "$want"; then echo "ok   mustfail $(basename $p) -> $(echo "$out" | grep '^VIOLATION' | grep "$want" | head -1 | sed 's/.*replays.//')"; else echo "SELFTEST FAIL (missed): $(basename $p) expected $want; got: $(echo "$out" | tail -2)"; rc=1; fi
   fi
 done
+# replay: two seeded changes whose failing input must be reproduced on the real code
+if [ -z "$only" ] || echo replay | grep -q "$only"; then
+  for spec in "C12-2:C12:readNext_nopanic_index" "C06-2:C06:Pos_post_in_range"; do
+    sd=$(echo $spec | cut -d: -f1); prop=$(echo $spec | cut -d: -f2); want=$(echo $spec | cut -d: -f3)
+    rm -rf $S; mkdir -p $S; (cd /repo && git archive HEAD) | tar -x -C $S
+    (cd $S && patch -p1 -s < /verif/seeded/$sd/patch.diff)
+    out=$(VERIF_NOREPLAY= /verif/bin/rlverify check -repo $S "$prop" 2>&1)
+    if echo "$out" | grep "^VIOLATION" | grep "$want" | grep -vq "no-failing-input-found"; then echo "ok   replay   $sd: failing input reproduced for $want"; else echo "SELFTEST FAIL (replay): $sd expected a reproduced failing input for $want"; rc=1; fi
+  done
+fi
 # lemma canaries: must NOT prove (an inconsistent theory would prove them)
 if [ -z "$only" ] || echo canary | grep -q "$only"; then
   out=$(/verif/bin/rlverify func zz_canary 2>&1)
